@@ -309,3 +309,60 @@ def post_C13(cases, xs):
                 if o != v:
                     stats["control_changed"] += 1
     return findings, stats
+
+
+# ------------------------------------------------------------------ syntax-level generators (C20, later C01-C04, C14)
+VOCAB = ["package", "import", "interface", "parcelable", "enum", "oneway", "const", "in", "out", "inout", "void", "int",
+         "String", "CharSequence", "List", "Map", "true", "false", "Foo", "x", "p.q", "@A", "7", "1.5", '"s"',
+         ";", ",", "{", "}", "(", ")", "[", "]", "<", ">", "=", ".", "-", "class", "do", "double", "#", "é"]
+
+
+def mutate_tokens(rng, toks):
+    """toks: list of strings; 1-3 random token-level edits"""
+    toks = list(toks)
+    for _ in range(rng.choice([1, 1, 2, 3])):
+        if not toks:
+            break
+        r = rng.random()
+        i = rng.randrange(len(toks))
+        if r < 0.3:
+            toks.insert(i, rng.choice(VOCAB))
+        elif r < 0.55:
+            del toks[i]
+        elif r < 0.85:
+            toks[i] = rng.choice(VOCAB)
+        else:
+            j = rng.randrange(len(toks))
+            toks[i], toks[j] = toks[j], toks[i]
+    return toks
+
+
+def join_tokens(toks, rng=None, style="space"):
+    return gen.render([gen.Tok(t) for t in toks], rng, style)[0]
+
+
+def gen_C20(rng, tier):
+    cases = []
+    n = 120 if tier == "quick" else 1500
+    k = 0
+    fixed = ["", "package", "package p", "package p;", "package p; interface", "package p; interface I {", "package p; interface I { x }",
+             "package p; interface I { void f( }", "package p; enum E { A = }", "package p; parcelable P { int ; }",
+             "package p; interface I {} interface J {}", "interface I {}", "package p; import q; interface I {}",
+             "package p; interface I { void f() = -1; }", "package p; parcelable P { int x = 1. ; }"]
+    for t in fixed:
+        cases.append(nm(f"fixed{k}", [("f", t)]))
+        k += 1
+    for i in range(n):
+        d = gen.gen_doc(rng)
+        toks = [t.text for t in gen.tokens(d)]
+        cuts = sorted(set(rng.randrange(len(toks) + 1) for _ in range(6)))
+        for c in cuts:
+            tail = rng.choice([[], [], [rng.choice(VOCAB)], [rng.choice(VOCAB), rng.choice(VOCAB)]])
+            text = join_tokens(toks[:c] + tail, rng, rng.choice(["space", "space", "wild"]))
+            cases.append(nm(f"p{k}", [("f", text)]))
+            k += 1
+        for _ in range(3):
+            text = join_tokens(mutate_tokens(rng, toks), rng, "space")
+            cases.append(nm(f"m{k}", [("f", text)]))
+            k += 1
+    return cases
